@@ -307,3 +307,40 @@ def gaussian_twice():
         outs.append(r)
     same = all(outs[0][k].equals(outs[1][k]) for k in outs[0])
     return {"identical": bool(same)}
+
+
+class _FakeVersionClient:
+    """scripted list_object_versions: newest-first listing, given page sizes"""
+
+    def __init__(self, times, pages):
+        self.vers = [{"VersionId": f"v{i}", "LastModified": t, "Size": 1, "Key": "k"} for i, t in enumerate(times)]
+        self.pages = list(pages) or [1000]
+        self.n_calls = 0
+
+    def list_object_versions(self, Bucket=None, Prefix=None, KeyMarker=None, VersionIdMarker=None, **kw):
+        m = 0 if KeyMarker is None else int(KeyMarker)
+        p = max(1, self.pages[min(self.n_calls, len(self.pages) - 1)])
+        self.n_calls += 1
+        page = self.vers[m : m + p]
+        resp = {"IsTruncated": m + p < len(self.vers), "NextKeyMarker": str(m + p), "NextVersionIdMarker": str(m + p)}
+        if page:
+            resp["Versions"] = list(page)
+        return resp
+
+
+def list_versions_replay(times, pages, start, end, marker=0):
+    from elexmodel.handlers.s3 import S3VersionUtil
+
+    u = S3VersionUtil.__new__(S3VersionUtil)
+    u.bucket_name = "b"
+    u.start_date, u.end_date, u.tz = start, end, "UTC"
+    u.s3_client = _FakeVersionClient(times, pages)
+    out = {"exc": None}
+    try:
+        kw = {} if marker == 0 else {"KeyMarker": str(marker), "VersionIdMarker": str(marker)}
+        got = [v["VersionId"] for v in u.list_versions("p", **kw)]
+        want = [f"v{i}" for i, t in enumerate(times) if i >= marker and (start is None or t >= start) and (end is None or t <= end)]
+        out.update(got=got, want=want, equal=got == want)
+    except Exception as e:  # noqa
+        out["exc"] = f"{type(e).__name__}: {e}"
+    return out
